@@ -1318,6 +1318,157 @@ theorem resolveNonblocking_sendAfterDone_refuted : ¬ ResolveNonblockingStatemen
   unfold ProtoOk
   decide
 
+/-- the readiness clause alone: `send` only directly enabled by a `ready? true` -/
+def PSt.stepW (p : PSt) : Ev β → Option PSt
+  | .snd _ => if p.ready then some { p with ready := false } else none
+  | e => p.step e
+
+def PSt.runW (p : PSt) : List (Ev β) → Option PSt
+  | [] => some p
+  | e :: es => match p.stepW e with
+    | some p' => p'.runW es
+    | none => none
+
+/-- every `send` in the trace is directly enabled by a `ready? true` -/
+def ReadyOk (tr : List (Ev β)) : Prop := (PSt.runW {} tr).isSome = true
+
+theorem aux_runW_append (p : PSt) (a b : List (Ev β)) :
+    p.runW (a ++ b) = (p.runW a).bind (fun p' => p'.runW b) := by
+  induction a generalizing p with
+  | nil => rfl
+  | cons e a ih =>
+    simp only [List.cons_append, PSt.runW]
+    cases p.stepW e with
+    | none => rfl
+    | some p' => simpa using ih p'
+
+theorem aux_runW_drainTr_rdy (p : PSt) (sent : List β) (r : Bool) :
+    p.runW (drainTr sent ++ [Ev.rdy r]) = some { p with ready := r } := by
+  induction sent generalizing p with
+  | nil => simp [drainTr, PSt.runW, PSt.stepW, PSt.step]
+  | cons x xs ih =>
+    have := ih { p with ready := false }
+    simp only [drainTr, List.flatMap_cons, List.cons_append, List.nil_append, List.append_assoc] at this ⊢
+    simp only [PSt.runW, PSt.stepW, PSt.step, if_true]
+    exact this
+
+/-- `ResolveFutures` in non-blocking mode — what does hold for every contract-honouring caller
+    (including one that polls again after `Done`): every downstream `send` is directly enabled by a
+    `ready? true`, and no output is lost or duplicated: delivered ++ still queued is a permutation
+    of (initially queued ++ pushed), equal to it for the ordered queue.  (The clause "no send after
+    finalize" is the refuted one, see above.) -/
+theorem resolveNonblocking_partial (ordered : Bool) (q0 : List (QEntry β)) {up : List (Ev (Nat × β))}
+    {down : List (PEv β)} {q' : List (QEntry β)}
+    (ht : (resolveC (β := β) ordered true).Tr q0 up down q') (hok : ProtoOk up) :
+    ReadyOk (port 0 down) ∧
+    (sends (port 0 down) ++ qvals q').Perm (qvals q0 ++ (sends up).map (·.2)) ∧
+    (ordered = true → sends (port 0 down) ++ qvals q' = qvals q0 ++ (sends up).map (·.2)) := by
+  obtain ⟨pu', hpu⟩ := ProtoOk_iff.1 hok
+  -- generalised over the starting point
+  suffices H : ∀ (q : List (QEntry β)) (up : List (Ev (Nat × β))) (down : List (PEv β)) (q' : List (QEntry β)),
+      (resolveC (β := β) ordered true).Tr q up down q' →
+      ∀ (pu pu' pd : PSt), pu.run up = some pu' → (pu.ready = true → pu.started = false → pd.ready = true) →
+      ∃ pd', pd.runW (port 0 down) = some pd' ∧
+        (sends (port 0 down) ++ qvals q').Perm (qvals q ++ (sends up).map (·.2)) ∧
+        (ordered = true → sends (port 0 down) ++ qvals q' = qvals q ++ (sends up).map (·.2)) by
+    obtain ⟨pd', h1, h2, h3⟩ := H q0 up down q' ht {} pu' {} hpu (by simp)
+    exact ⟨by simp [ReadyOk, h1], h2, h3⟩
+  intro q up down q' ht
+  induction ht with
+  | nil k => intro pu pu' pd _ _; exact ⟨pd, rfl, by simp, by simp⟩
+  | @rdy k k1 k2 b es down up he _ ih =>
+    intro pu pu' pd hr hrd
+    rw [PSt.run_cons] at hr
+    simp only [PSt.step, Option.bind_some] at hr
+    obtain ⟨sent, r, rfl, g1, g2, g3, _⟩ := emptyReadyAux_shape ordered true (k.length + 1) (by omega) he
+    obtain ⟨pd', h1, h2, h3⟩ := ih { pu with ready := b } pu' { pd with ready := r } hr (by intro hb _; exact g3 hb)
+    refine ⟨pd', ?_, ?_, ?_⟩
+    · rw [port_append, port_onPort_same, aux_runW_append, aux_runW_drainTr_rdy]; exact h1
+    · simp only [port_append, port_onPort_same, sends_append, sends_drainTr, sends_drainTr', sends_rdy, sends_fin, sends_nil, List.append_nil]
+      rw [List.append_assoc]
+      refine (List.Perm.append_left sent h2).trans ?_
+      rw [← List.append_assoc]
+      exact List.Perm.append_right _ g1
+    · intro ho
+      simp only [port_append, port_onPort_same, sends_append, sends_drainTr, sends_drainTr', sends_rdy, sends_fin, sends_nil, List.append_nil]
+      rw [List.append_assoc, h3 ho, ← List.append_assoc, g2 ho]
+  | @snd k k1 k2 x es down up he _ ih =>
+    intro pu pu' pd hr hrd
+    rw [PSt.run_cons] at hr
+    simp only [PSt.step] at hr
+    split at hr
+    · rename_i hc
+      simp only [Bool.and_eq_true, Bool.not_eq_true'] at hc
+      simp only [Option.bind_some] at hr
+      have hpr := hrd hc.1 hc.2
+      simp only [resolveC, if_true] at he
+      have hsp := qPoll_spec ordered (k ++ [⟨x.1, x.2, false⟩])
+      cases hq : qPoll ordered (k ++ [⟨x.1, x.2, false⟩]) with
+      | mk qq res =>
+        rw [hq] at hsp he
+        cases res with
+        | item y =>
+          simp only [emits_snd, emits_ret] at he hsp
+          obtain ⟨es', rfl, rfl, rfl⟩ := he
+          obtain ⟨p1, p2, _⟩ := hsp
+          obtain ⟨pd', h1, h2, h3⟩ := ih { pu with ready := false } pu' { pd with ready := false } hr (by simp)
+          refine ⟨pd', ?_, ?_, ?_⟩
+          · simp only [List.cons_append, List.nil_append, port_cons_same, PSt.runW, PSt.stepW, hpr, if_true]; exact h1
+          · simp only [List.cons_append, List.nil_append, port_cons_same, sends_snd, List.map_cons, List.cons_append]
+            have : (y :: (qvals k1 ++ (sends up).map (·.2))).Perm ((qvals k ++ [x.2]) ++ (sends up).map (·.2)) := by
+              rw [← List.cons_append]
+              exact List.Perm.append_right _ (by simpa using p1)
+            refine (List.Perm.cons y h2).trans (this.trans ?_)
+            simp
+          · intro ho
+            simp only [List.cons_append, List.nil_append, port_cons_same, sends_snd, List.map_cons, List.cons_append]
+            rw [h3 ho, ← List.cons_append]
+            have := p2 ho
+            simp only [qvals_append, qvals_cons, qvals_nil] at this
+            rw [this]; simp
+        | ended =>
+          simp only [emits_ret] at he hsp
+          obtain ⟨rfl, rfl⟩ := he
+          exact absurd hsp.1 (by simp)
+        | pending =>
+          simp only [emits_ret] at he hsp
+          obtain ⟨rfl, rfl⟩ := he
+          obtain ⟨p1, _, _⟩ := hsp
+          obtain ⟨pd', h1, h2, h3⟩ := ih { pu with ready := false } pu' pd hr (by simp)
+          refine ⟨pd', by simpa using h1, ?_, ?_⟩
+          · simp only [List.nil_append, sends_snd, List.map_cons]
+            refine h2.trans ?_
+            rw [p1]; simp
+          · intro ho
+            simp only [List.nil_append, sends_snd, List.map_cons]
+            rw [h3 ho, p1]; simp
+    · simp at hr
+  | @fin k k1 k2 b es down up he _ ih =>
+    intro pu pu' pd hr hrd
+    rw [PSt.run_cons] at hr
+    simp only [PSt.step, Option.bind_some] at hr
+    obtain ⟨es1, b1, he1, hcase⟩ := thenFin_shape he
+    obtain ⟨sent, r, rfl, g1, g2, g3, _⟩ := emptyReadyAux_shape ordered true (k.length + 1) (by omega) he1
+    have key : ∃ tl : List (Ev β), sends tl = [] ∧ es = onPort 0 (drainTr sent ++ [Ev.rdy r] ++ tl) ∧
+        ∀ p : PSt, ∃ p', p.runW tl = some p' := by
+      rcases hcase with ⟨_, rfl⟩ | ⟨_, _, rfl⟩
+      · exact ⟨[Ev.fin b], rfl, by simp [onPort], fun p => ⟨{ p with started := true, closed := p.closed || b }, by simp [PSt.runW, PSt.stepW, PSt.step]⟩⟩
+      · exact ⟨[], rfl, by simp, fun p => ⟨p, rfl⟩⟩
+    obtain ⟨tl, htl, rfl, hrun⟩ := key
+    obtain ⟨p1, hp1⟩ := hrun { pd with ready := r }
+    obtain ⟨pd', h1, h2, h3⟩ := ih { pu with started := true, closed := pu.closed || b } pu' p1 hr (by simp)
+    refine ⟨pd', ?_, ?_, ?_⟩
+    · rw [port_append, port_onPort_same, aux_runW_append, aux_runW_append, aux_runW_drainTr_rdy]
+      simp only [Option.bind_some, hp1]; exact h1
+    · simp only [port_append, port_onPort_same, sends_append, sends_drainTr, sends_drainTr', sends_rdy, sends_fin, sends_nil, List.append_nil, htl]
+      rw [List.append_assoc]
+      refine (List.Perm.append_left sent h2).trans ?_
+      rw [← List.append_assoc]
+      exact List.Perm.append_right _ g1
+    · intro ho
+      simp only [port_append, port_onPort_same, sends_append, sends_drainTr, sends_drainTr', sends_rdy, sends_fin, sends_nil, List.append_nil, htl]
+      rw [List.append_assoc, h3 ho, ← List.append_assoc, g2 ho]
+
 /-! ## Pipelines -/
 
 /-- **Pipelines follow by induction**: `K1` pushing into `K2` (`Comb.comp`: every downstream call
